@@ -566,12 +566,12 @@ class FileStoragePacker(FileStorageFormatter):
                         is_dup = (
                             rpos and self._read_data_header(rpos).tid == h.tid)
                         if not is_dup:
-                            if h.oid not in self.gc.reachable:
-                                self.blob_removed.write(
-                                    binascii.hexlify(h.oid) + b'\n')
-                            else:
-                                self.blob_removed.write(
-                                    binascii.hexlify(h.oid + h.tid) + b'\n')
+                            # Only this revision goes.  Even if the
+                            # object was garbage at the pack time, it
+                            # may have been written again later, and
+                            # those revisions keep their blob files.
+                            self.blob_removed.write(
+                                binascii.hexlify(h.oid + h.tid) + b'\n')
 
                 pos += h.recordlen()
                 continue
